@@ -216,6 +216,18 @@ def matrix_cases(tier, seed, stores=("local",)):
     for q in (p0, p1):
         q["fns"][q["_ids"]["main"]]["stmts"][2]["args"] = [gen.local(0)]
     emit("default@D", p0, p1, {"kind": "set_default", "fn": "D", "site": ["T", "D"], "position": "D"})
+    # D5b: a parameter that no caller supplies and whose default is a module variable (the function text never changes)
+    for pos in ("h1", "h2", "A", "D", "C"):
+        p0 = base_program("pm%d" % k)
+        k += 1
+        f = p0["fns"][p0["_ids"][pos]]
+        vid = gen.add_var(p0, f["module"], "V_DEFAULT", "int")
+        p0["order"][f["module"]].remove(("var", vid))
+        p0["order"][f["module"]].insert(0, ("var", vid))
+        f["default_vars"] = [vid]
+        p1, d = gen.e_set_var(p0, vid)
+        d.update({"position": pos, "variant": "default_is_module_variable"})
+        emit("default_var@%s" % pos, p0, p1, d)
     # D6: import forms for the cross-module references (edit = callee constant two modules away)
     for form in gen.IMPORT_FORMS:
         for layout in ("three", "deep"):
@@ -226,7 +238,7 @@ def matrix_cases(tier, seed, stores=("local",)):
                 d.update({"position": pos, "import_form": form, "layout": layout})
                 emit("import:%s/%s@%s" % (form, layout, pos), p0, p1, d)
     # D7: higher-order reference, lambda, nested def, class/method
-    for variant in ("ref", "ref_kw", "lambda_call", "nested_def", "nested_def_var", "nested_def_helper", "nested_def_helper:default", "nested_def_helper:lambda_default", "nested_def_var:default", "nested_def_var:lambda_default", "nested_def_var:shadow", "method_const", "method_var", "method_callee", "cls_attr", "cls_attr_other_module", "indent"):
+    for variant in ("ref", "ref_kw", "lambda_call", "nested_def", "nested_def_var", "nested_def_helper", "nested_def_helper:default", "nested_def_helper:lambda_default", "nested_def_var:default", "nested_def_var:lambda_default", "nested_def_var:shadow", "method_const", "method_var", "method_callee", "method_const:prop", "method_var:prop", "method_callee:prop", "cls_attr", "cls_attr_other_module", "indent"):
         for pos in ("A", "main", "C"):
             p0 = base_program("pm%d" % k)
             k += 1
@@ -286,6 +298,8 @@ def matrix_cases(tier, seed, stores=("local",)):
                 p1, d = gen.e_set_cls_attr(p0, cid)
             else:
                 vid = callee = None
+                prop = variant.endswith(":prop")  # the method is a property with a setter (two functions of one name in the class)
+                variant = variant.partition(":")[0]
                 if variant == "method_var":
                     vid = gen.add_var(p0, mod, "V_CLS", "int")
                     p0["order"][mod].remove(("var", vid))
@@ -294,7 +308,7 @@ def matrix_cases(tier, seed, stores=("local",)):
                     callee = gen.add_fn(p0, mod, "cls_callee", const=70)
                     p0["order"][mod].remove(("fn", callee))
                     p0["order"][mod].insert(0, ("fn", callee))
-                cid = gen.add_cls(p0, mod, "Kls", const=80, var=vid, calls=callee)
+                cid = gen.add_cls(p0, mod, "Kls", const=80, var=vid, calls=callee, prop=prop)
                 p0["order"][mod].remove(("cls", cid))
                 idx = p0["order"][mod].index(("fn", ids[pos]))
                 p0["order"][mod].insert(idx, ("cls", cid))
@@ -308,7 +322,7 @@ def matrix_cases(tier, seed, stores=("local",)):
                 else:
                     p1, d = gen.e_set_const(p0, callee)
             d.update({"position": pos, "variant": variant})
-            emit("%s@%s" % (variant, pos), p0, p1, d)
+            emit("%s%s@%s" % (variant, ":prop" if variant.startswith("method_") and prop else "", pos), p0, p1, d)
     # D9: function-local imports (of dds, of sibling modules by dotted name, of a module nothing else imports)
     for form in ("from_import", "local_import_full"):
         for what in ("lazy_const", "lazy_var", "A", "E3i", "h2", "C"):
